@@ -269,8 +269,9 @@ class Tree:
 # ------------------------------------------------------------------------------- where the archive lives
 class Arch:
     """the archive of a history: <sandbox>/ar/x.pna or x.part1.pna .. x.partN.pna"""
-    def __init__(self, sb, base=None):
+    def __init__(self, sb, base=None, stem="x"):
         self.sb = sb
+        self.stem = stem                     # archive file name without ".pna" (dotted stems: x.part, my.file, x.partial)
         self.base = base or sb.root          # the directory the commands run in (archive paths are relative to it)
         self.dir = sb.path("ar")
         os.makedirs(self.dir, exist_ok=True)
@@ -286,8 +287,9 @@ class Arch:
     def rescan(self, directory=None):
         d = directory or self.dir
         names = os.listdir(d)
-        parts = sorted((n for n in names if re.match(r"x\.part\d+\.pna$", n)), key=lambda n: int(n[6:-4]))
-        self.parts = [os.path.join(d, n) for n in parts] if parts else [os.path.join(d, "x.pna")]
+        pat = re.compile(re.escape(self.stem) + r"\.part(\d+)\.pna$")
+        parts = sorted((n for n in names if pat.match(n)), key=lambda n: int(pat.match(n).group(1)))
+        self.parts = [os.path.join(d, n) for n in parts] if parts else [os.path.join(d, self.stem + ".pna")]
 
     def clear(self):
         for n in os.listdir(self.dir):
